@@ -367,6 +367,14 @@ func runC09(c *Ctx) {
 		okOver := ir.DerivesFrom(cmp.(*ssa.BinOp).X, func(v ssa.Value) bool { return loadsField(c.field(pWire, "MsgTx", "TxIn"))(v) }) || ir.DerivesFrom(cmp.(*ssa.BinOp).Y, func(v ssa.Value) bool { return loadsField(c.field(pWire, "MsgTx", "TxIn"))(v) })
 		okOver = okOver && (ir.DerivesFrom(cmp.(*ssa.BinOp).X, func(v ssa.Value) bool { return loadsField(c.field("neutrino", "rescanOptions", "watchInputs"))(v) }) || ir.DerivesFrom(cmp.(*ssa.BinOp).Y, func(v ssa.Value) bool { return loadsField(c.field("neutrino", "rescanOptions", "watchInputs"))(v) }))
 		c.verdict(okOver, c.nm(fn)+" | compares elements of tx.TxIn with elements of ro.watchInputs", c.at(cmp), "both operands are loop elements of the two lists", "the outpoint comparison is not between an input of the transaction and an entry of the watch list")
+		// both loops run over the whole of their list, and "nothing spent"
+		// is only said after them
+		saysNoSpend := func(r *ssa.Return) bool {
+			k, isC := ir.ConstBool(ir.RetVal(r, 0))
+			return !(isC && k)
+		}
+		c.fullRange(fn, inner, "the loop over ro.watchInputs", loadsField(c.field("neutrino", "rescanOptions", "watchInputs")), 0, saysNoSpend)
+		c.fullRange(fn, outer, "the loop over the transaction's inputs", loadsField(c.field(pWire, "MsgTx", "TxIn")), 0, saysNoSpend)
 		// (B) every input reaches the loop over the watch list
 		innerFirst := inner.Instrs[0]
 		c.mustFollowIter(fn, "each input of the transaction", bodyEdges(outer, "next input"), func(in ssa.Instruction) bool { return in == innerFirst }, "the loop over ro.watchInputs", nil, 1)
@@ -387,13 +395,23 @@ func runC09(c *Ctx) {
 		_ = cut
 		c.mustFollowIter(fn, "each (input, watched input) pair", bodyEdges(inner, "next watched input"), func(in ssa.Instruction) bool { return in == cmp }, "in.PreviousOutPoint == input.OutPoint", zcut, 1)
 		// a match returns true
+		// (every return reachable from the equality edge returns true; the
+		// exploration knows the booleans a match sets on the way)
 		okTrue := false
 		for _, br := range ir.EqBranches(cmp.(*ssa.BinOp)) {
-			blk := br.Edge().From.Succs[br.Edge().Succ]
-			if r, ok := blk.Instrs[len(blk.Instrs)-1].(*ssa.Return); ok && len(r.Results) == 1 {
-				if k, isC := ir.ConstBool(r.Results[0]); isC && k {
-					okTrue = true
+			nTrue, nOther := 0, 0
+			ir.WalkEdge(br.Edge(), nil, func(in ssa.Instruction) bool {
+				if r, ok := in.(*ssa.Return); ok {
+					if k, isC := ir.ConstBool(ir.RetVal(r, 0)); isC && k {
+						nTrue++
+					} else {
+						nOther++
+					}
 				}
+				return true
+			})
+			if nTrue >= 1 && nOther == 0 {
+				okTrue = true
 			}
 		}
 		c.verdict(okTrue, c.nm(fn)+" | an outpoint match returns true", c.at(cmp), "return true on equality", "an outpoint match no longer returns true")
